@@ -17,6 +17,20 @@ CHECKS = {
              "Overlap.construct_array_contraction of /repo on every run. The 1e-8 accuracy clause is decided on the "
              "generated inputs only.",
         design="5 C01", technique="Coq proof (induction over the recursion) + model/implementation correspondence"),
+    "C18": dict(
+        text="Coq theorems about an executable line/token-level Gallina model of parse_nwchem, parse_gbs, "
+             "make_contractions and the data flow of from_pyscf (Model/Parsers.v): printing any well-formed basis-set "
+             "AST under any admissible layout (zero, one or many lines before the first element, comment/blank/filler "
+             "lines, blanks, letter case, E/D/plain literals, SP blocks) and parsing it back returns exactly the "
+             "shells written; make_contractions places shells per atom in order with the requested types and "
+             "returns its arguments untouched. The model is evaluated inside Coq (vm_compute, batched coqc calls) "
+             "and compared on every run with the implementation of /repo on generated files (written to disk and "
+             "parsed by both), molecules (every call made twice on the same, bitwise snapshotted argument objects) "
+             "and fake PySCF Mole objects; the file writer of the harness is tied to the proven Coq printers by an "
+             "in-Coq comparison on a seeded subset. Python float()/re/NumPy are not modelled (literals compared "
+             "after float() on both sides); from_iodata is not exercised.",
+        design="5 C18", technique="Coq proof (round trip of printer and parser model) + model/implementation "
+                                  "correspondence incl. argument-effect monitoring"),
 }
 NOT_YET = {}
 
